@@ -17,7 +17,15 @@ output "greeting" {
 }
 
 output "total" {
-  value = var.size + 1
+  value = max(var.size + 1, 2)
+}
+
+output "shout" {
+  value = upper(var.name, "en")
+}
+
+output "stamp" {
+  value = timestamp("utc")
 }
 `
 
@@ -88,6 +96,15 @@ data "aws_ami" "ubuntu" {
     name   = "name"
     values = ["ubuntu-*"]
   }
+  exclude {
+    name = "beta"
+  }
+  lookup {
+    region = var.region
+  }
+  retry {
+    attempts = 3
+  }
 }
 
 data "terraform_remote_state" "net" {
@@ -132,6 +149,24 @@ resource "aws_instance" "web" {
     labels = {
       tier = "web"
       zone = "a"
+    }
+    access_config {
+      nat_ip = "10.1.1.1"
+      rule {
+        port = 22
+      }
+      dynamic "rule" {
+        for_each = local.ports
+        content {
+          port = rule.value
+        }
+      }
+    }
+    dynamic "access_config" {
+      for_each = var.sizes
+      content {
+        nat_ip = access_config.key
+      }
     }
   }
   volume "ssd" "data" {
